@@ -273,8 +273,8 @@ impl Property for C06 {
     }
     fn budget(&self, tier: Tier) -> u64 {
         match tier {
-            Tier::Quick => 400_000,
-            Tier::Thorough => 20_000_000,
+            Tier::Quick => 2_000_000,
+            Tier::Thorough => 40_000_000,
         }
     }
     fn generate(&self, seed: u64, run: u64, _tier: Tier, _avoid: &BTreeSet<String>) -> MacCase {
